@@ -22,7 +22,44 @@ STATE: dict = {}
 
 def _reset(plan: list) -> None:
     STATE.clear()
-    STATE.update({"plan": [dict(p) for p in plan], "attempts": [], "dirs": [], "deleted": [], "injected": [], "avail": [], "events": [], "ports_done": {}})
+    STATE.update({"plan": [dict(p) for p in plan], "attempts": [], "dirs": [], "deleted": [], "injected": [], "avail": [], "events": [], "ports_done": {},
+                  "timeline": [], "gate_events": {}, "signalled": set(), "gates": []})
+
+
+_LEGACY = ("exec", "fail", "lose", "stage")
+
+
+def _ev(kind: str, job: str) -> None:
+    """`events`: the kinds the job-step replay of C16/C19 consumes; `timeline`: the same plus start / claim / replica / gate marks"""
+    if kind in _LEGACY:
+        STATE["events"].append([kind, job])
+    STATE["timeline"].append([kind, job])
+
+
+def _gate_event(name: str) -> "asyncio.Event":
+    return STATE["gate_events"].setdefault(name, asyncio.Event())
+
+
+def signal(name: str) -> None:
+    if name not in STATE["signalled"]:
+        STATE["signalled"].add(name)
+        _ev("signal", name)
+    _gate_event(name).set()
+
+
+async def _gates(job_name: str, attempt: int, phase: str = "execute") -> None:
+    """forced interleavings: `case.gates = [{job, attempt, phase?, signal?, wait?, timeout?}]` — at the start of the given execution of the
+    job (phase execute: its status is RUNNING; phase schedule: it has just been scheduled, FIREABLE) first raise `signal`, then hold the job until `wait` was raised (by another gate or by the failure-manager
+    tracer: `synced:<failed job>` = a recovery finished `_synchronize_workflows`); a wait that times out is logged, not an error"""
+    for g in STATE.get("gates", []):
+        if g["job"] == job_name and g["attempt"] == attempt and g.get("phase", "execute") == phase:
+            if g.get("signal"):
+                signal(g["signal"])
+            if g.get("wait"):
+                try:
+                    await asyncio.wait_for(_gate_event(g["wait"]).wait(), g.get("timeout", 30))
+                except asyncio.TimeoutError:
+                    _ev("gate-timeout", g["wait"])
 
 
 def _lookup(step: str, tag: str, phase: str):
@@ -42,6 +79,8 @@ def _job_dirs(job_name: str):
 def _lose(plan_entry: dict, job) -> None:
     """fail-stop: delete exactly the directories of the jobs named in the plan entry (default: the failing job)"""
     names = [posixpath.join(s, t) for s, t in plan_entry.get("lose", [])] or [job.name]
+    for name in [posixpath.join(s, t) for s, t in plan_entry.get("replicate", [])]:
+        _replicate(name)
     for name in names:
         dirs = _job_dirs(name)
         if name == job.name and dirs is None:
@@ -50,8 +89,32 @@ def _lose(plan_entry: dict, job) -> None:
             if d and os.path.isdir(d):
                 shutil.rmtree(d, ignore_errors=True)
                 STATE["deleted"].append((name, d))
-        STATE["events"].append(["lose", name])
+        _ev("lose", name)
         STATE["ports_done"].pop(name, None)
+
+
+def _replicate(job_name: str) -> None:
+    """copy every file of the job's output directory to the SECOND deployment (`shape.deps = 2`) and register the copy in the real
+    DataManager as a further primary data location of the same data (what a transfer to another location does)"""
+    from streamflow.core.data import DataType
+    dm = STATE["context"].data_manager
+    dirs = _job_dirs(job_name)
+    out_dir = dirs[1] if dirs else None
+    if not out_dir or not os.path.isdir(out_dir):
+        return
+    for base, _, files in os.walk(out_dir):
+        for f in files:
+            src = os.path.join(base, f)
+            srcs = [d for d in dm.get_data_locations(src, data_type=DataType.PRIMARY) if d.path == src]
+            if not srcs:
+                continue
+            dst = os.path.join(STATE["replica_root"], job_name.strip("/").replace("/", "_"), os.path.relpath(src, out_dir))
+            os.makedirs(os.path.dirname(dst), exist_ok=True)
+            shutil.copy2(src, dst)
+            dloc = dm.register_path(STATE["replica_loc"], dst, relpath=srcs[0].relpath)
+            dloc.available.set()
+            dm.register_relation(srcs[0], dloc)
+            _ev("replica", job_name)
 
 
 def _inject(step_name: str, job, phase: str) -> bool:
@@ -83,6 +146,8 @@ def _classes():
         async def execute(self, job):
             step_name = self.step.name
             STATE["attempts"].append((job.name, "execute", time.time()))
+            _ev("start", job.name)
+            await _gates(job.name, sum(1 for n, _, _ in STATE["attempts"] if n == job.name))
             ctx_ = self.step.workflow.context
             reg = {}
             for loc in ctx_.scheduler.get_locations(job.name):
@@ -96,18 +161,19 @@ def _classes():
                 await context.database.update_execution(
                     await context.database.add_execution(self.step.persistent_id, job_token.persistent_id, self.command),
                     {"status": cmd_out.status})
-                STATE["events"].append(["fail", job.name])
+                _ev("fail", job.name)
                 return cmd_out
             out = await super().execute(job)
-            STATE["events"].append(["exec" if out.status == Status.COMPLETED else "fail", job.name])
+            _ev("exec" if out.status == Status.COMPLETED else "fail", job.name)
             return out
 
     class SfvScheduleStep(InjectorFailureScheduleStep):
         async def _set_job_directories(self, connector, locations, job):
             step_name = self.job_prefix
             if _inject(step_name, job, "schedule"):
-                STATE["events"].append(["fail", job.name])
+                _ev("fail", job.name)
                 raise WorkflowExecutionException(f"Injected error into {self.name} step")
+            await _gates(job.name, 1 + sum(1 for n, _ in STATE["dirs"] if n == job.name), "schedule")
             await ScheduleStep._set_job_directories(self, connector, locations, job)
             STATE["dirs"].append((job.name, [job.input_directory, job.output_directory, job.tmp_directory]))
 
@@ -116,14 +182,14 @@ def _classes():
             step_name = self.name.split("/__transfer__/")[0]
             top = any(token is t for t in job.inputs.values())
             if top and _inject(step_name, job, "transfer"):
-                STATE["events"].append(["fail", job.name])
+                _ev("fail", job.name)
                 raise WorkflowExecutionException(f"Injected error into {self.name} step")
             out = await super().transfer(job, token)
             if top:
                 done = STATE["ports_done"].setdefault(job.name, set())
                 done.add(self.name)
                 if len(done) >= len(job.inputs):
-                    STATE["events"].append(["stage", job.name])
+                    _ev("stage", job.name)
                     STATE["ports_done"][job.name] = set()
             return out
 
@@ -200,10 +266,24 @@ def _trace_failure_manager(context) -> None:
         return res
 
     async def _update_request(job_name):
-        await orig_upd(job_name)
+        _ev("claim", job_name)          # before the awaited notify_status(ROLLBACK): the decision is taken here
+        try:
+            await orig_upd(job_name)
+        except BaseException:
+            _ev("claim-refused", job_name)
+            raise
         ev.append(["claim", rid(), job_name])
 
+    orig_sync = fm._synchronize_workflows
+
+    async def _synchronize_workflows(*a, **kw):
+        try:
+            return await orig_sync(*a, **kw)
+        finally:
+            signal("synced:" + str(kw.get("failed_job", a[0] if a else "")))
+
     fm.get_request, fm.is_recovering, fm._update_request = get_request, is_recovering, _update_request
+    fm._synchronize_workflows = _synchronize_workflows
 
 
 async def _file(context, location, content: str) -> dict:
@@ -247,9 +327,9 @@ async def _build(case: dict, context, workflow, translator, dep: str, location):
                             save_input_token=False)
         return inj.get_output_port(name)
 
-    def stage(name: str, inputs: dict, src_key: str, out_type: str, out_name: str = "out"):
+    def stage(name: str, inputs: dict, src_key: str, out_type: str, out_name: str = "out", on: str | None = None):
         cmd = f"lambda x : ('copy', '{out_type}', x['{src_key}'].value)"
-        st = translator.get_execute_pipeline(command=cmd, deployment_names=[dep], input_ports=inputs, outputs={out_name: out_type},
+        st = translator.get_execute_pipeline(command=cmd, deployment_names=[on or dep], input_ports=inputs, outputs={out_name: out_type},
                                              step_name=posixpath.join(posixpath.sep, name), workflow=workflow)
         steps["/" + name] = st
         return st
@@ -258,6 +338,13 @@ async def _build(case: dict, context, workflow, translator, dep: str, location):
         value = await _file(context, location, "payload-pipeline") if kind == "file" else 100
         ports = {"out": await source("out", value)}
         for i in range(shape["n"]):
+            if shape.get("sink") and i == shape["n"] - 1:
+                # an ExecuteStep WITHOUT output ports (its command only has side effects)
+                cmd = "lambda x : ('copy', 'primitive', 1)"
+                st = translator.get_execute_pipeline(command=cmd, deployment_names=[dep], input_ports=ports, outputs={},
+                                                     step_name=posixpath.join(posixpath.sep, f"s{i}"), workflow=workflow)
+                steps[f"/s{i}"] = st
+                return {}, steps
             st = stage(f"s{i}", ports, "out", "file" if kind == "file" else "primitive")
             ports = st.get_output_ports()
         return {"out": ports["out"]}, steps
@@ -322,12 +409,22 @@ async def _run(case: dict) -> dict:
     STATE["inputs_dir"] = os.path.join(root, "inputs")
     STATE["fixed_tmp"] = {st: os.path.join(root, "work", "test-fs-volatile", "fixed-" + st.strip("/")) for st in case.get("fixed_tmp", [])}
     os.makedirs(STATE["inputs_dir"], exist_ok=True)
+    STATE["replica_root"] = os.path.join(root, "work1", "test-fs-volatile", "replicas")
     fm = ({"type": "default", "config": {"max_retries": case.get("max_retries"), "retry_delay": 0}}
           if case.get("manager", "rollback") == "rollback" else {"type": "dummy", "config": {}})
     context = build_context({"failureManager": fm, "database": {"type": "default", "config": {"connection": ":memory:"}}, "path": root})
     dep = "local-fs-volatile"
     config = get_local_deployment_config(name=dep, workdir=os.path.join(root, "work", "test-fs-volatile"))
     await context.deployment_manager.deploy(config)
+    configs = {dep: config}
+    for k in range(1, case["shape"].get("deps", 1)):
+        configs[f"{dep}-{k}"] = get_local_deployment_config(name=f"{dep}-{k}", workdir=os.path.join(root, f"work{k}", "test-fs-volatile"))
+        await context.deployment_manager.deploy(configs[f"{dep}-{k}"])
+    STATE["deps"] = list(configs)
+    STATE["context"] = context
+    if len(configs) > 1:
+        conn2 = context.deployment_manager.get_connector(STATE["deps"][1])
+        STATE["replica_loc"] = next(iter((await conn2.get_available_locations()).values())).location
     if case.get("trace_fm"):
         _trace_failure_manager(context)
     res: dict = {"outcome": None}
@@ -336,13 +433,13 @@ async def _run(case: dict) -> dict:
         location = next(iter((await connector.get_available_locations()).values())).location
         workflow = next(iter(await create_workflow(context, num_port=0)))
         translator = SfvTranslator(workflow)  # noqa: F821
-        translator.deployment_configs = {dep: config}
+        translator.deployment_configs = configs
         outs, steps = await _build(case, context, workflow, translator, dep, location)
         await workflow.save(context.database)
         executor = StreamFlowExecutor(workflow)
         t0 = time.time()
         try:
-            await asyncio.wait_for(executor.run(), case.get("timeout", 600))
+            await asyncio.wait_for(executor.run(), case.get("timeout", 180))
             res["outcome"] = "ok"
         except asyncio.TimeoutError:
             res["outcome"] = "hang"
@@ -395,6 +492,7 @@ async def _run(case: dict) -> dict:
     res["deleted"] = STATE["deleted"]
     res["avail"] = STATE["avail"]
     res["events"] = STATE["events"]
+    res["timeline"] = STATE["timeline"]
     res["fm_events"] = STATE.get("fm_events", [])
     res["plan_left"] = [p for p in STATE["plan"] if p.get("count", 1) > 0]
     return res
@@ -406,12 +504,28 @@ def run_case(case: dict) -> dict:
     logging.getLogger("streamflow").setLevel(logging.CRITICAL)
     logging.disable(logging.CRITICAL)
     _reset(case.get("plan", []))
+    STATE["gates"] = [dict(g) for g in case.get("gates", [])]
     root = case.get("root") or tempfile.mkdtemp(prefix="sfv-recov-")
     case = dict(case, root=root)
     try:
         if case.get("lseed") is not None:
             from sfv.rt.loop import run_controlled
-            return run_controlled(lambda: _run(case), case["lseed"], timeout=case.get("timeout", 600) + 60)
+            return run_controlled(lambda: _run(case), case["lseed"], timeout=case.get("timeout", 180) + 60)
         return asyncio.run(_run(case))
     finally:
         shutil.rmtree(root, ignore_errors=True)
+
+
+def run_cases(cases: list, timeout: float = 300, workers: int = 6):
+    """pmap over `run_case`; a case whose worker gave no result in time is retried once in a fresh worker (a stuck worker
+    process — e.g. a thread of the sqlite layer surviving the event loop — is infrastructure, a hang that repeats is a result)"""
+    from sfv.rt.par import pmap
+    again = []
+    for case, status, r in pmap(run_case, cases, timeout=timeout, workers=workers):
+        if status == "timeout":
+            again.append(case)
+        else:
+            yield case, status, r
+    if again:
+        for case, status, r in pmap(run_case, again, timeout=timeout, workers=min(workers, len(again))):
+            yield case, status, r
